@@ -11,3 +11,5 @@ Lemma ob_preface_read_full : preface_read_full = true.
 Proof. vm_compute. reflexivity. Qed.
 Lemma ob_preface_is_rfc : connection_preface = b "PRI * HTTP/2.0" ++ [13;10;13;10] ++ b "SM" ++ [13;10;13;10].
 Proof. vm_compute. reflexivity. Qed.
+Lemma ob_hpack_at_release : hpack_at_release = true.
+Proof. vm_compute. reflexivity. Qed.
